@@ -134,7 +134,7 @@ def make(shape, raw=False):
   for o in objs[:-1]:
     if isinstance(o, fdl.Buildable) and type(o).__name__ != 'TaggedValueCls':
       k0, k1 = arg_keys(o)
-      o.__argument_tags__[k0].add(N.TagB)
+      o.__argument_tags__[k0].add(N.TagD)   # grandchild of TagA
       o.__argument_tags__[k1].add(N.TagC)
   return objs[-1]
 
@@ -290,6 +290,17 @@ def state_checks(real, twin, untagged_twin_maker, res, case):
     res.transitions += 1
     got = canon.canon_cfg(out)
     w = want
+    if name in ('copy.copy', 'deepcopy'):
+      # editing the tags of the copy must leave the original's tags alone
+      try:
+        for key in arg_keys(out):
+          fdl.add_tag(out, key, N.TagC)
+          fdl.clear_tags(out, key)
+      except Exception as e:  # pylint: disable=broad-except
+        return bad(f'tag-edit-on-copy-raises/{name}', repr(e))
+      if canon.canon_cfg(real) != want:
+        return bad(f'tag-edit-on-copy-changed-original/{name}',
+                   f'original now {real!r}, expected {twin!r}')
     if name == 'cast':
       got, w = mask_root_type(got), mask_root_type(w)
     if got != w:
